@@ -9,9 +9,9 @@ import (
 	"io"
 	"os"
 	"path/filepath"
-	"syscall"
 	"runtime"
 	"strings"
+	"syscall"
 	"testing"
 	"time"
 
@@ -30,13 +30,13 @@ type c18Case struct {
 	ProdUS   []int  `json:"produs"` // producer: sleep between chunks, microseconds (cyclic)
 	Chunks   []int  `json:"chunks"`
 	Procs    int    `json:"procs"`
-	Comment  int    `json:"comment"` // parser configuration: 0 default, 1 the zero Config{}, 2 ';' as comment character
-	LongLine int    `json:"longline"` // > 0: a note line of that many bytes is inserted after the first heading
-	Warmup   int    `json:"warmup"`   // the same Parser value first parses this many other streams (the first with an error), drained to Done
-	Err      int    `json:"err"`      // failing-reader: index into c10Errors
-	Skip     int    `json:"skip"`     // seekable: permille of the text already consumed by the caller before parsing
+	Comment  int    `json:"comment"`            // parser configuration: 0 default, 1 the zero Config{}, 2 ';' as comment character
+	LongLine int    `json:"longline"`           // > 0: a note line of that many bytes is inserted after the first heading
+	Warmup   int    `json:"warmup"`             // the same Parser value first parses this many other streams (the first with an error), drained to Done
+	Err      int    `json:"err"`                // failing-reader: index into c10Errors
+	Skip     int    `json:"skip"`               // seekable: permille of the text already consumed by the caller before parsing
 	NameForm int    `json:"nameform,omitempty"` // odd-name: which spelling of the file name is handed to the parsers
-	BOM      bool   `json:"bom"`      // the text starts with a UTF-8 byte order mark (both parsers must treat it alike)
+	BOM      bool   `json:"bom"`                // the text starts with a UTF-8 byte order mark (both parsers must treat it alike)
 }
 
 func (c c18Case) config() parser.Config {
@@ -70,6 +70,24 @@ func (s *vSlowReader) Read(p []byte) (int, error) {
 		}
 	}
 	return s.r.Read(p)
+}
+
+// vStallReader hands out its data and then blocks instead of reporting the end: a pipe whose writer is still alive.
+// Whoever has seen a parse error in the data must not wait for more.
+type vStallReader struct {
+	data    []byte
+	pos     int
+	release chan struct{}
+}
+
+func (s *vStallReader) Read(p []byte) (int, error) {
+	if s.pos < len(s.data) {
+		n := copy(p, s.data[s.pos:])
+		s.pos += n
+		return n, nil
+	}
+	<-s.release
+	return 0, io.EOF
 }
 
 type c18Event struct {
@@ -146,6 +164,8 @@ func checkC18(c c18Case, ctx *vCtx) *vFailure {
 			return &vFaultReader{data: []byte(text), failAt: len(text) + 1, chunks: c.Chunks}
 		}
 	}
+	stallRelease := make(chan struct{})
+	defer close(stallRelease) // whatever happened, let a producer that is still reading come to an end
 	missing := filepath.Join(vScratchDir(), "c18-does-not-exist.yaml")
 	filePath := ""
 	if c.Input == "file" || c.Input == "fifo" {
@@ -343,6 +363,8 @@ func checkC18(c c18Case, ctx *vCtx) *vFailure {
 			p.ParseStream(f)
 		case "seekable":
 			p.ParseStream(mkReader()) // handed over as it is, so that the parser sees the seekable type
+		case "stalling-stream":
+			p.ParseStream(&vStallReader{data: []byte(text), release: stallRelease})
 		default:
 			p.ParseStream(&vSlowReader{r: mkReader(), delays: c.ProdUS})
 		}
@@ -490,6 +512,13 @@ func genC18(t *rapid.T) c18Case {
 			c.Input = "stream"
 			if kind >= 2 { // one or several malformed lines
 				c09Plant(t, &d, rapid.IntRange(1, 3).Draw(t, "k"), pool, "plant")
+				if rapid.IntRange(0, 2).Draw(t, "stalling") == 0 {
+					// the stream does not end after the malformed line (its writer is still alive); one more record follows,
+					// so that the malformed line is complete in what has been read
+					c.Input = "stalling-stream"
+					d.Recs = append(d.Recs, vRec{Head: "tail~", HL: vLayout{EOL: "\n"}, Lines: []vLine{{Kind: vkEntry, Name: "x", Num: "1", L: vLayout{Indent: "  ", Sep: ": ", EOL: "\n"}}}})
+					d.NoFinalNL = false
+				}
 			}
 		case kind <= 6:
 			c.Input = []string{"failing-reader", "failing-reader", "failing-reader", "seekable", "closed-file"}[rapid.IntRange(0, 4).Draw(t, "readerkind")]
